@@ -44,6 +44,25 @@ def check_trace(rep, case, events, outcomes, opinfo, etimes=None):
                      {"op_index": i, "op": op, "configured_good": want, "handshakes": hs}); return
         if explicit and outcomes[i][0] in (0, -1):
             configured = (op[1] == 1)
+    # a configured connection lifetime, judged from the wire: an exchange that STARTS after connect time + lifetime (the lifetime in
+    # force when that connection was made) writes nothing on that connection
+    if etimes:
+        life, born, lifeof, last_cid = None, {}, {}, None
+        for i, (op, info) in enumerate(zip(ops, opinfo)):
+            end = opinfo[i + 1]["nevents"] if i + 1 < len(opinfo) else len(events)
+            if op[0] == 6:
+                life = None if op[1] < 0 else op[1] / 1000.0
+            if op[0] in (1, 2, 3, 4) and last_cid is not None and lifeof.get(last_cid) is not None \
+                    and info["time"] > born[last_cid] + lifeof[last_cid] + 1e-6:
+                late = [e for e in events[info["nevents"]:end] if e[0] in (2, 3) and e[1] == last_cid]
+                if late:
+                    rep.fail("oracle", "write-on-connection-older-than-its-lifetime", case_dict(case),
+                             {"op_index": i, "connection": last_cid, "connected_at": round(born[last_cid], 3), "lifetime_s": lifeof[last_cid],
+                              "exchange_started_at": round(info["time"], 3), "writes": late}); return
+            for k in range(info["nevents"], end):
+                if events[k][0] == 1:
+                    last_cid = events[k][1]
+                    born[last_cid], lifeof[last_cid] = etimes[k], life
     # expiry / missing authentication at the start of an exchange
     for i, (op, info) in enumerate(zip(ops, opinfo)):
         if op[0] not in (1, 3) or not info["v3"]:
@@ -119,6 +138,8 @@ def run(ctx, rep):
     cases = cases if ctx.deep else cases[::2] + cases[:120]
     cases += [sessgen.rand_history(rng, v3=True) for _ in range(ctx.n(500, 6000))]
     cases += sessgen.late_hs_histories(rng, ctx.n(60, 1200))          # handshake replies arriving after the read timeout
+    cases += sessgen.lifetime_histories(rng, ctx.n(30, 400))          # re-handshake on a connection about to reach its lifetime
+    cases += sessgen.reauth_on_live_session(rng, ctx.n(30, 400))      # other credentials offered on a live authenticated session
     mo = ctx.model.batch([sess.model_case(*c) for c in cases])
     for c, (st, outs) in zip(cases, mo):
         im = sess.run_impl(ctx.model, rng, *c)
